@@ -32,6 +32,8 @@ def run_model_job(pid, job, tier, seed):
     p = job["params"][tier]
     env = {k: str(v) for k, v in p.get("env", {}).items()}
     env["SEED"] = str(seed)
+    if "trace_from" in job:
+        env["TRACE"] = os.path.join(vlib.WORK, pid, job["trace_from"], "tr.0.ndjson")
     out = run_tlc_model(job["spec"], job.get("cfg", job["spec"]), wd, workers=p.get("workers", 8), timeout=p.get("timeout", 1800),
                         xmx=p.get("xmx", "6g"), simulate=p.get("simulate"), env_extra=env, extra=p.get("extra"))
     log("[model] %s: %d states generated, %d distinct, %.1fs%s" % (job["name"], out["states"], out["distinct"], out["wall_s"],
